@@ -1741,6 +1741,26 @@ func hRunHistory(t *testing.T, out *vOut, r *rand.Rand, id int) {
 				checkQuiescent()
 			}
 		}
+		if r.Intn(2) == 0 {
+			// the holder of ONE address now explicitly requests that address plus the IPv6 one that is still taken:
+			// it must get exactly the pair or nothing ("holds exactly the requested addresses" is not "a subset of them")
+			held := gIPStrs(gStatusIPs(w.get("ns1/b")))
+			if len(held) == 1 {
+				grown := pref
+				grown.WantKind, grown.WantIPs = "annot", []string{held[0], "fc00:1::"}
+				doPut("ns1/b", grown)
+				doSvc("ns1/b", false)
+				if drain() {
+					checkQuiescent()
+				}
+				doPut("ns1/b", pref)
+				doSvc("ns1/b", false)
+				if drain() {
+					checkQuiescent()
+				}
+				out.Stat("directed_request_grown_beyond_held_scenarios", 1)
+			}
+		}
 		doDel("ns1/a")
 		if drain() {
 			checkQuiescent()
